@@ -6,7 +6,7 @@ import random
 
 from .. import subcases as SC
 from ..common import Check
-from ..subharness import canon_value, class_info, deliver, make_connection
+from ..subharness import canon_value, class_info, deliver, make_connection, typed_decoding
 
 PROP_FILE = "Properties/C03.v"
 
@@ -22,7 +22,7 @@ def reference(cls, cid, funcs, h):
         S, F, V = m[1]
         if S == cid and F in byname:
             try:
-                ref[F] = canon_value(byname[F].converter.to_value(V))
+                ref[F] = canon_value(typed_decoding(byname[F].converter, V))
             except Exception:  # noqa: undecodable: the previous value stays (C10)
                 pass
     return ref
